@@ -159,17 +159,24 @@ def _guard(ctx, cls, fn, *a, **k):
         raise Violation(v.bucket + ':' + cls, v.msg) from v
 
 
-def explicit_sum(ctx, mode, cs, shape, dtype=np.float64):
-    """sum_k c_k mode(k) with the magnitude sum_k |c_k| max|mode(k)| that sets the rounding scale"""
+def explicit_sum(ctx, mode, cs, shape, dtype=np.float64, single=False):
+    """sum_k c_k mode(k) with the magnitude sum_k |c_k| max|mode(k)| that sets the rounding scale.
+
+    single: the routine is given single-precision coordinates or coefficients.  No routine can be more accurate than the rounding
+    of its own input (one ulp of float32 in the coordinate moves mode k by about eps32 * k^2 * O(1)), so the magnitude has the floor
+    sum_k |c_k| (1+k)^2 * 5e-4, which at the single-precision rtol of 1e-3 is 8 eps32 * sum_k |c_k| (1+k)^2.  (Found by a background
+    sweep: one float32 point next to u = 1, where Qbfs_0 = u^2 (1-u^2) is ill-conditioned, compared relative to the value at that point.)"""
     total = np.zeros(shape, dtype=dtype)
     mag = 0.0
+    floor = 0.0
     for k, c in enumerate(cs):
         if c == 0:
             continue
         mk = np.asarray(ctx.call(mode, k), dtype=dtype)
         total = total + float(c) * mk
         mag += abs(float(c)) * float(np.max(np.abs(mk))) if mk.size else 0.0
-    return total, mag
+        floor += abs(float(c)) * (1 + k) ** 2 * 5e-4
+    return total, (max(mag, floor) if single else mag)
 
 
 def cmp_sum(got, want, mag, bucket, what, rtol=1e-10):
@@ -300,7 +307,7 @@ def check_jacobi(case, ctx):
     ctx.require(same_values(arg, s), 'jacobi_sum_clenshaw:argument-modified:s', 'the coefficients %r became %r (via %s)' % ([float(v) for v in s], arg, via))
     unchanged(ctx, x, x_before, 'jacobi_sum_clenshaw:argument-modified:x', 'the coordinate array')
     xd = f64(x)
-    want, mag = explicit_sum(ctx, lambda n: P.jacobi(n, a, b, xd), s, np.shape(x), np.complex128 if np.iscomplexobj(xd) else np.float64)
+    want, mag = explicit_sum(ctx, lambda n: P.jacobi(n, a, b, xd), s, np.shape(x), np.complex128 if np.iscomplexobj(xd) else np.float64, single=single)
     U.check_shape(got, np.shape(x), 'jacobi_sum_clenshaw:' + cls, 'sum of %d terms at x of shape %s' % (len(s), np.shape(x)))
     rtol = 1e-3 if single else 1e-10
     what = 'jacobi_sum_clenshaw(%r, %r, %r) [%s, %s, x %s %s] vs explicit sum, x.shape=%s' % (
@@ -311,7 +318,7 @@ def check_jacobi(case, ctx):
     arg2, s2 = contain(s[::-1] * 0.5, case['container'])
     got2 = fast(arg2, a, b, x)
     U.check_equal(np.asarray(got), kept, 'jacobi_sum_clenshaw:result-overwritten', 'the first sum after a call with other coefficients (via %s)' % via)
-    want2, mag2 = explicit_sum(ctx, lambda n: P.jacobi(n, a, b, xd), s2, np.shape(x), want.dtype)
+    want2, mag2 = explicit_sum(ctx, lambda n: P.jacobi(n, a, b, xd), s2, np.shape(x), want.dtype, single=single)
     cmp_sum(got2, want2, mag2, 'jacobi_sum_clenshaw:second-call:' + cls, 'other coefficients, ' + what, rtol=rtol)
     got3 = fast(arg, a, b, x)
     cmp_sum(got3, want, mag, 'jacobi_sum_clenshaw:repeat:' + cls, 'the same objects again, ' + what, rtol=rtol)
@@ -364,7 +371,7 @@ def check_q1d(case, ctx):
     ctx.require(same_values(arg, c), fn + ':argument-modified:coefficients', 'the coefficients %r became %r' % ([float(v) for v in c], arg))
     unchanged(ctx, u, u_before, fn + ':argument-modified:u', 'the radial coordinate array')
     unchanged(ctx, usq, usq_before, fn + ':argument-modified:usq', 'the squared radial coordinate array')
-    want, mag = explicit_sum(ctx, mode, c, np.shape(u))
+    want, mag = explicit_sum(ctx, mode, c, np.shape(u), single=single)
     U.check_shape(got, np.shape(u), '%s:%s' % (fn, cls), 'sag of %d terms at u of shape %s' % (len(c), np.shape(u)))
     rtol = 1e-3 if single else 1e-10
     what = '%s(%r) [%s, u %s %s] sag vs explicit sum, u.shape=%s' % (fn, [float(v) for v in c], case['container'], udtype, layout, np.shape(u))
@@ -373,7 +380,7 @@ def check_q1d(case, ctx):
     arg2, c2 = contain(c[::-1] * 0.5, case['container'])
     got2 = fast(fn, arg2, u, usq)
     U.check_equal(np.asarray(got), kept, fn + ':result-overwritten', 'the first sag after a call with other coefficients')
-    want2, mag2 = explicit_sum(ctx, mode, c2, np.shape(u))
+    want2, mag2 = explicit_sum(ctx, mode, c2, np.shape(u), single=single)
     cmp_sum(got2, want2, mag2, '%s:second-call:%s' % (fn, cls), 'other coefficients, ' + what, rtol=rtol)
     got3 = fast(fn, arg, u, usq)
     cmp_sum(got3, want, mag, '%s:repeat:%s' % (fn, cls), 'the same coefficient object again, ' + what, rtol=rtol)
